@@ -5,7 +5,8 @@ cd "$(dirname "$0")"
 mkdir -p work replays evidence
 (cd harness && CARGO_NET_OFFLINE=true cargo build --offline && CARGO_NET_OFFLINE=true cargo build --offline --release)
 # variant builds used by C11 (no_std roots) and C16 (std / no_std x debug / release); failures here are left to the checks to report
-(cd harness && CARGO_NET_OFFLINE=true cargo build --offline --no-default-features --features rand,serde --target-dir target-variants >/dev/null 2>&1 || true)
+(cd harness && CARGO_NET_OFFLINE=true cargo build --offline --no-default-features --features rand,serde --target-dir target-rand_serde >/dev/null 2>&1 || true)
+(cd harness && CARGO_NET_OFFLINE=true cargo build --offline --no-default-features --features std,rand,serde,quickcheck,arbitrary --target-dir target-std_rand_serde_quickcheck_arbitrary >/dev/null 2>&1 || true)
 (cd harness && for prof in "" "--release"; do
    CARGO_NET_OFFLINE=true cargo build --offline $prof --no-default-features --target-dir target-nostd >/dev/null 2>&1 || true
    CARGO_NET_OFFLINE=true cargo build --offline $prof --no-default-features --features std --target-dir target-std >/dev/null 2>&1 || true
